@@ -23,6 +23,8 @@ COMPLEX = {'float _Complex': 8, 'double _Complex': 16}
 
 
 def ckind(t):
+    if t in cc.UNIONS:
+        return 'union'
     if t in COMPLEX:
         return 'complex'
     if t == 'void':
@@ -31,6 +33,8 @@ def ckind(t):
 
 
 def csize(t):
+    if t in cc.UNIONS:
+        return cc.UNIONS[t][2]
     if t in COMPLEX:
         return COMPLEX[t]
     if t == 'void':
@@ -46,12 +50,14 @@ def c_const(t, v):
         return "__builtin_complex((%s)%s, (%s)%s)" % (t.split()[0], re.hex(), t.split()[0], im.hex())
     if k == 'ptr':
         return "(%s)0" % t if v is None else "(%s)(c14_gbuf + %d)" % (t, v)
+    if k == 'union':        # first member
+        return "(%s){ %s }" % (t, cc.c_literal(cc.UNIONS[t][1], v))
     return cc.c_literal(t, v)
 
 
 def gen_source(sigs):
     pre = ["#include <stdint.h>", "#include <stddef.h>", "#include <string.h>", "#include <uchar.h>", "#include <wchar.h>",
-           "#include <complex.h>", "#include <sys/types.h>", cc.PRELUDE_DECLS, "unsigned char c14_gbuf[64];"]
+           "#include <complex.h>", "#include <sys/types.h>", cc.PRELUDE_DECLS, cc.UNION_DECLS, "unsigned char c14_gbuf[64];"]
     body = []
     for i, s in enumerate(sigs):
         params = ", ".join(s["args"]) or "void"
@@ -74,7 +80,8 @@ def gen_source(sigs):
 
 
 def gen_cdef(sigs):
-    out = [cc.PRELUDE_DECLS, "extern unsigned char c14_gbuf[64];"]
+    out = [cc.PRELUDE_DECLS, cc.UNION_DECLS.replace("char pad[16];", "char pad[16];").replace("char c[3];", "char c[3];"),
+           "extern unsigned char c14_gbuf[64];"]
     for i, s in enumerate(sigs):
         params = ", ".join(s["args"]) or "void"
         out.append('extern "Python" %s xf_%d(%s);' % (s["res"], i, params))
@@ -112,6 +119,8 @@ def canon(ffi, lib, v):
             return ["ptr", a - g] if g <= a < g + 64 else ["ptr", "other"]
         if ct.kind == "struct":
             return ["struct", [canon(ffi, lib, getattr(v, fn)) for fn, fld in ct.fields]]
+        if ct.kind == "union":          # value of the first member
+            return ["union", canon(ffi, lib, getattr(v, ct.fields[0][0]))]
         if ct.kind == "primitive":
             return ["ld", fbits(float(v))]
     return ["other", type(v).__name__]
@@ -138,6 +147,8 @@ def mkret(ffi, lib, t, spec):
         return ffi.NULL if spec[1] is None else ffi.cast(t, ffi.cast("char *", ffi.addressof(lib, "c14_gbuf")) + spec[1])
     if k == "struct":        # list initializer -> struct cdata
         return ffi.new(t + " *", [mkret(ffi, lib, ft, fs) for (fn, ft), fs in zip(cc.STRUCTS[t], spec[1])])[0]
+    if k == "union":         # union cdata whose first member has the given value
+        return ffi.new(t + " *", [mkret(ffi, lib, cc.UNIONS[t][1], spec[1])])[0]
     if k == "list":
         return [mkret(ffi, lib, None, s) for s in spec[1]]
     if k == "obj":
